@@ -1,1 +1,1802 @@
-fn main() {}
+//! C03 correspondence harness: secured messages are accepted only if authentic for that
+//! session and direction.
+//!
+//! usage: c03 gen <quick|thorough> <seed> <outdir>   -> cases.txt (+ stats.json)
+//!        c03 run <cases-file>                        -> one canonical line per case from the REAL code
+//!
+//! Case kinds (the same lines are printed by ocaml/c03/driver.ml from the extracted model)
+//!
+//!   D <id> <world> <sessions> <groups> <from> <oracle> <prelude> <wire> <muts>
+//!       the receive pipeline (`TransportRunner::decode_packet`, through the hook
+//!       `verif_decode_packet`) on the datagram `wire` and on mutations of it, every one from
+//!       the same base state (session table rebuilt when a decode changed it)
+//!   R <id> <world> <sender session> <exch|-> <gctr|-> <pid> <opcode> <rel> <payload>
+//!          <receiver sessions> <groups> <from> <oracle>
+//!       round trip: the real TX path (`write_packet` = payload, `pre_send`, `encode`) on the
+//!       sender's session, then the real receive pipeline on the receiver's table
+//!
+//!   world    `-` or `;`-joined `key:nonce:aad:pt:ct` (hex): the honest sealings, made at
+//!            generation time with the raw AES-CCM primitive from nonce / associated data built by
+//!            the harness according to the specification (security flags | counter | node id; the
+//!            encoded plain header)
+//!   sessions `-` or `;`-joined `mode:addr:lnode:pnode:deck:enck:lsid:psid:ctr:win:flags:exchs`
+//!            mode P | A<fab> | C<fab> | G<fab>.<gid>; addr kind.v6.ip.port; pnode `-` = none;
+//!            win synced.max.bitmap; flags <expired><reserved>; exchs `-` or `,`-joined slots
+//!            `_` | id/role/state/retr/ack  (as in c10)
+//!   groups   `-` or `;`-joined `fab:node:gid:key:sid` in the order the receiver tries them
+//!   oracle   rand.evict  (evict `-` = none)
+//!   prelude  `-` or `,`-joined ops run before the base state is taken: `w<hex>` decode that
+//!            datagram from `from`, `r<idx>` remove the session in table slot idx
+//!   muts     `,`-joined: `-` untouched, `f<bit>` flip, `t<len>` truncate to len, `x<hex>` append,
+//!            `w<hex>` other datagram, `a<addr>` untouched datagram from another address,
+//!            `F` every single-bit flip, `T` every truncation, `X` the 16 extensions
+//!
+//! Output: `D <id> <token> <token> ...`, one token per mutation:
+//!   <class>[<fields>]<state>   class: k Ok(false) K Ok(true) T TruncatedPacket I Invalid
+//!   D InvalidData S InvalidSignature N NoSession U Duplicate E NoExchange X NoSpaceExchanges
+//!   Z NoSpaceSessions B BufferTooSmall ? other;  fields (when Ok) = `[plain;proto;payloadhex]`;
+//!   state `=` unchanged or `!<sessions>|<group counter store>`.
+//!   `F`/`T`/`X` give `<chars>` (one class char per member, `*` for a member that was
+//!   delivered or changed state) followed by `@<index>:<token>` for every `*` member.
+use core::num::NonZeroU8;
+use std::collections::BTreeMap;
+use std::fmt::Write as _;
+use std::io::Write as _;
+use std::net::{Ipv4Addr, Ipv6Addr, SocketAddr, SocketAddrV4, SocketAddrV6};
+
+use rs_matter::crypto::{
+    test_only_crypto, Aead, CanonAeadKey, Crypto, AEAD_NONCE_ZEROED,
+};
+use rs_matter::dm::devices::test::{TEST_DEV_ATT, TEST_DEV_COMM, TEST_DEV_DET};
+use rs_matter::error::{Error, ErrorCode};
+use rs_matter::fabric::GroupKeyMapping;
+use rs_matter::group_keys::{GroupEpochKeyEntry, GroupKeySet, KeySet};
+use rs_matter::transport::exchange::MessageMeta;
+use rs_matter::transport::network::{Address, BtAddr};
+use rs_matter::transport::packet::PacketHdr;
+use rs_matter::transport::plain_hdr::PlainHdr;
+use rs_matter::transport::proto_hdr::ProtoHdr;
+use rs_matter::transport::session::{
+    derive_group_session_id, ReservedSession, SessionMode, VerifSessionSnapshot,
+};
+use rs_matter::transport::verif_hooks::RxCtrState;
+use rs_matter::transport::TransportRunner;
+use rs_matter::utils::storage::WriteBuf;
+use rs_matter::Matter;
+use rsm_harness::Rng;
+
+// ------------------------------------------------------------------ specs
+
+#[derive(Clone, Debug, PartialEq)]
+struct AddrS {
+    kind: u8,
+    v6: bool,
+    ip: u128,
+    port: u16,
+}
+
+impl AddrS {
+    fn udp4(a: u8, port: u16) -> Self {
+        AddrS { kind: 0, v6: false, ip: 0x0a00_0000 + a as u128, port }
+    }
+    fn to_real(&self) -> Address {
+        if self.kind == 2 {
+            let b = (self.ip as u64).to_be_bytes();
+            return Address::Btp(BtAddr([b[2], b[3], b[4], b[5], b[6], b[7]]));
+        }
+        let sa = if self.v6 {
+            SocketAddr::V6(SocketAddrV6::new(Ipv6Addr::from(self.ip), self.port, 0, 0))
+        } else {
+            SocketAddr::V4(SocketAddrV4::new(Ipv4Addr::from(self.ip as u32), self.port))
+        };
+        if self.kind == 1 {
+            Address::Tcp(sa)
+        } else {
+            Address::Udp(sa)
+        }
+    }
+    fn of_real(a: &Address) -> Self {
+        let f = |kind: u8, sa: &SocketAddr| match sa {
+            SocketAddr::V4(v) => AddrS { kind, v6: false, ip: u32::from(*v.ip()) as u128, port: v.port() },
+            SocketAddr::V6(v) => AddrS { kind, v6: true, ip: u128::from(*v.ip()), port: v.port() },
+        };
+        match a {
+            Address::Udp(sa) => f(0, sa),
+            Address::Tcp(sa) => f(1, sa),
+            Address::Btp(b) => {
+                let mut v = 0u128;
+                for x in b.0 {
+                    v = (v << 8) | x as u128;
+                }
+                AddrS { kind: 2, v6: false, ip: v, port: 0 }
+            }
+        }
+    }
+    fn show(&self) -> String {
+        format!("{}.{}.{}.{}", self.kind, self.v6 as u8, self.ip, self.port)
+    }
+    fn parse(s: &str) -> Self {
+        let p: Vec<&str> = s.split('.').collect();
+        AddrS { kind: p[0].parse().unwrap(), v6: p[1] == "1", ip: p[2].parse().unwrap(), port: p[3].parse().unwrap() }
+    }
+}
+
+#[derive(Clone, Debug, PartialEq)]
+enum Mode {
+    Plain,
+    Pase(u8),
+    Case(u8),
+    Group(u8, u16),
+}
+
+impl Mode {
+    fn show(&self) -> String {
+        match self {
+            Mode::Plain => "P".into(),
+            Mode::Pase(f) => format!("A{}", f),
+            Mode::Case(f) => format!("C{}", f),
+            Mode::Group(f, g) => format!("G{}.{}", f, g),
+        }
+    }
+    fn parse(s: &str) -> Self {
+        match s.as_bytes()[0] {
+            b'P' => Mode::Plain,
+            b'A' => Mode::Pase(s[1..].parse().unwrap()),
+            b'C' => Mode::Case(s[1..].parse().unwrap()),
+            _ => {
+                let (f, g) = s[1..].split_once('.').unwrap();
+                Mode::Group(f.parse().unwrap(), g.parse().unwrap())
+            }
+        }
+    }
+    fn to_real(&self) -> SessionMode {
+        match self {
+            Mode::Plain => SessionMode::PlainText,
+            Mode::Pase(f) => SessionMode::Pase { fab_idx: *f },
+            Mode::Case(f) => SessionMode::Case { fab_idx: NonZeroU8::new(*f).unwrap(), cat_ids: Default::default() },
+            Mode::Group(f, g) => SessionMode::Group { fab_idx: NonZeroU8::new(*f).unwrap(), group_id: *g },
+        }
+    }
+    fn of_real(m: &SessionMode) -> Self {
+        match m {
+            SessionMode::PlainText => Mode::Plain,
+            SessionMode::Pase { fab_idx } => Mode::Pase(*fab_idx),
+            SessionMode::Case { fab_idx, .. } => Mode::Case(fab_idx.get()),
+            SessionMode::Group { fab_idx, group_id } => Mode::Group(fab_idx.get(), *group_id),
+        }
+    }
+}
+
+#[derive(Clone, Debug, PartialEq)]
+struct ExchS {
+    id: u16,
+    role: char,
+    state: char,
+    retr: Option<u32>,
+    ack: Option<(u32, bool)>,
+}
+
+#[derive(Clone, Debug, PartialEq)]
+struct SessS {
+    mode: Mode,
+    addr: AddrS,
+    lnode: u64,
+    pnode: Option<u64>,
+    deck: u32,
+    enck: u32,
+    lsid: u16,
+    psid: u16,
+    /// `None` prints as `?`: the random start of a session created by the receive path
+    ctr: Option<u32>,
+    win: (bool, u32, u16),
+    expired: bool,
+    reserved: bool,
+    exchs: Vec<Option<ExchS>>,
+}
+
+fn opt_show<T: ToString>(o: &Option<T>) -> String {
+    o.as_ref().map(|v| v.to_string()).unwrap_or_else(|| "-".into())
+}
+
+impl SessS {
+    fn show(&self) -> String {
+        let ex = if self.exchs.is_empty() {
+            "-".to_string()
+        } else {
+            self.exchs
+                .iter()
+                .map(|s| match s {
+                    None => "_".to_string(),
+                    Some(e) => format!(
+                        "{}/{}/{}/{}/{}",
+                        e.id,
+                        e.role,
+                        e.state,
+                        opt_show(&e.retr),
+                        match e.ack {
+                            Some((c, false)) => c.to_string(),
+                            Some((c, true)) => format!("{}+", c),
+                            None => "-".into(),
+                        }
+                    ),
+                })
+                .collect::<Vec<_>>()
+                .join(",")
+        };
+        format!(
+            "{}:{}:{}:{}:{}:{}:{}:{}:{}:{}.{}.{}:{}{}:{}",
+            self.mode.show(),
+            self.addr.show(),
+            self.lnode,
+            opt_show(&self.pnode),
+            self.deck,
+            self.enck,
+            self.lsid,
+            self.psid,
+            self.ctr.map(|c| c.to_string()).unwrap_or_else(|| "?".into()),
+            self.win.0 as u8,
+            self.win.1,
+            self.win.2,
+            self.expired as u8,
+            self.reserved as u8,
+            ex
+        )
+    }
+    fn parse(s: &str) -> Self {
+        let p: Vec<&str> = s.split(':').collect();
+        let w: Vec<&str> = p[9].split('.').collect();
+        let exchs = if p[11] == "-" {
+            vec![]
+        } else {
+            p[11]
+                .split(',')
+                .map(|t| {
+                    if t == "_" {
+                        None
+                    } else {
+                        let q: Vec<&str> = t.split('/').collect();
+                        Some(ExchS {
+                            id: q[0].parse().unwrap(),
+                            role: q[1].chars().next().unwrap(),
+                            state: q[2].chars().next().unwrap(),
+                            retr: if q[3] == "-" { None } else { Some(q[3].parse().unwrap()) },
+                            ack: if q[4] == "-" {
+                                None
+                            } else if let Some(c) = q[4].strip_suffix('+') {
+                                Some((c.parse().unwrap(), true))
+                            } else {
+                                Some((q[4].parse().unwrap(), false))
+                            },
+                        })
+                    }
+                })
+                .collect()
+        };
+        SessS {
+            mode: Mode::parse(p[0]),
+            addr: AddrS::parse(p[1]),
+            lnode: p[2].parse().unwrap(),
+            pnode: if p[3] == "-" { None } else { Some(p[3].parse().unwrap()) },
+            deck: p[4].parse().unwrap(),
+            enck: p[5].parse().unwrap(),
+            lsid: p[6].parse().unwrap(),
+            psid: p[7].parse().unwrap(),
+            ctr: if p[8] == "?" { None } else { Some(p[8].parse().unwrap()) },
+            win: (w[0] == "1", w[1].parse().unwrap(), w[2].parse().unwrap()),
+            expired: &p[10][0..1] == "1",
+            reserved: &p[10][1..2] == "1",
+            exchs,
+        }
+    }
+}
+
+#[derive(Clone, Debug)]
+struct GroupS {
+    fab: u8,
+    node: u64,
+    gid: u16,
+    key: u32,
+    sid: u16,
+}
+
+#[derive(Clone, Debug)]
+struct Entry {
+    key: u32,
+    nonce: Vec<u8>,
+    aad: Vec<u8>,
+    pt: Vec<u8>,
+    ct: Vec<u8>,
+}
+
+fn hex(b: &[u8]) -> String {
+    let mut s = String::with_capacity(b.len() * 2);
+    for x in b {
+        write!(s, "{:02x}", x).unwrap();
+    }
+    s
+}
+
+fn unhex(s: &str) -> Vec<u8> {
+    (0..s.len() / 2).map(|i| u8::from_str_radix(&s[2 * i..2 * i + 2], 16).unwrap()).collect()
+}
+
+fn list_show<T>(l: &[T], f: impl Fn(&T) -> String) -> String {
+    if l.is_empty() {
+        "-".into()
+    } else {
+        l.iter().map(f).collect::<Vec<_>>().join(";")
+    }
+}
+
+fn list_parse<T>(s: &str, f: impl Fn(&str) -> T) -> Vec<T> {
+    if s == "-" {
+        vec![]
+    } else {
+        s.split(';').map(f).collect()
+    }
+}
+
+impl Entry {
+    fn show(&self) -> String {
+        format!("{}:{}:{}:{}:{}", self.key, hex(&self.nonce), hex(&self.aad), hex(&self.pt), hex(&self.ct))
+    }
+}
+
+impl GroupS {
+    fn show(&self) -> String {
+        format!("{}:{}:{}:{}:{}", self.fab, self.node, self.gid, self.key, self.sid)
+    }
+    fn parse(s: &str) -> Self {
+        let p: Vec<&str> = s.split(':').collect();
+        GroupS {
+            fab: p[0].parse().unwrap(),
+            node: p[1].parse().unwrap(),
+            gid: p[2].parse().unwrap(),
+            key: p[3].parse().unwrap(),
+            sid: p[4].parse().unwrap(),
+        }
+    }
+}
+
+// ------------------------------------------------------------------ keys
+
+/// Key ids >= GROUP_KEY_BASE name group operational keys: the id selects the epoch key, the
+/// operational key is derived from it by the real `KeySet::update` (compressed fabric id 0).
+const GROUP_KEY_BASE: u32 = 1000;
+
+fn raw_key_bytes(id: u32) -> [u8; 16] {
+    let mut out = [0u8; 16];
+    if id == 0 {
+        return out;
+    }
+    let mut r = Rng::new(0xC03_0000 + id as u64);
+    for c in out.chunks_mut(8) {
+        c.copy_from_slice(&r.next().to_le_bytes());
+    }
+    out
+}
+
+fn canon_key(bytes: &[u8; 16]) -> CanonAeadKey {
+    let mut k = CanonAeadKey::new();
+    k.load_from_array(bytes);
+    k
+}
+
+/// the key bytes a session holding key id `id` has
+fn key_bytes<C: Crypto>(crypto: &C, id: u32) -> [u8; 16] {
+    if id >= GROUP_KEY_BASE {
+        let mut ks = KeySet::new();
+        ks.update(crypto, canon_key(&raw_key_bytes(id)).reference(), &0u64).unwrap();
+        let mut out = [0u8; 16];
+        out.copy_from_slice(ks.op_key().access());
+        out
+    } else {
+        raw_key_bytes(id)
+    }
+}
+
+fn group_sid<C: Crypto>(crypto: &C, id: u32) -> u16 {
+    derive_group_session_id(crypto, canon_key(&key_bytes(crypto, id)).reference()).unwrap()
+}
+
+fn fingerprint(bytes: &[u8]) -> u64 {
+    let mut h = 0xcbf2_9ce4_8422_2325u64;
+    for b in bytes {
+        h = (h ^ *b as u64).wrapping_mul(0x0000_0100_0000_01b3);
+    }
+    h
+}
+
+struct KeyTable(BTreeMap<u64, u32>);
+
+impl KeyTable {
+    fn new<C: Crypto>(crypto: &C, ids: &[u32]) -> Self {
+        let mut m = BTreeMap::new();
+        m.insert(fingerprint(&[0u8; 16]), 0);
+        for id in ids {
+            m.insert(fingerprint(&key_bytes(crypto, *id)), *id);
+        }
+        KeyTable(m)
+    }
+    fn id_of(&self, fp: u64) -> u32 {
+        *self.0.get(&fp).unwrap_or(&999_999)
+    }
+}
+
+// ------------------------------------------------------------------ reference sealing (specification side)
+
+/// nonce = security flags (1) | message counter (4, LE) | node id (8, LE)
+fn spec_nonce(sec_flags: u8, ctr: u32, node: u64) -> Vec<u8> {
+    let mut n = vec![sec_flags];
+    n.extend_from_slice(&ctr.to_le_bytes());
+    n.extend_from_slice(&node.to_le_bytes());
+    n
+}
+
+/// AES-CCM with the raw primitive: ciphertext and tag
+fn raw_seal<C: Crypto>(crypto: &C, key: &[u8; 16], nonce: &[u8], aad: &[u8], pt: &[u8]) -> Vec<u8> {
+    let mut iv = AEAD_NONCE_ZEROED;
+    iv.access_mut().copy_from_slice(nonce);
+    let mut data = pt.to_vec();
+    data.extend_from_slice(&[0u8; 16]);
+    let n = pt.len();
+    let mut aead = crypto.aead().unwrap();
+    let out = aead.encrypt_in_place(canon_key(key).reference(), iv.reference(), aad, &mut data, n).unwrap();
+    out.to_vec()
+}
+
+fn plain_bytes(p: &PlainHdr) -> Vec<u8> {
+    let mut buf = [0u8; 64];
+    let mut wb = WriteBuf::new(&mut buf);
+    p.encode(&mut wb).unwrap();
+    wb.as_slice().to_vec()
+}
+
+fn proto_bytes(x: &ProtoHdr) -> Vec<u8> {
+    let mut buf = [0u8; 64];
+    let mut wb = WriteBuf::new(&mut buf);
+    x.encode(&mut wb).unwrap();
+    wb.as_slice().to_vec()
+}
+
+/// the honest sealing of (header, payload) under key id `key` with the sender node id `node`:
+/// the world entry and the datagram
+fn honest<C: Crypto>(crypto: &C, key: u32, node: u64, hdr: &PacketHdr, payload: &[u8]) -> (Entry, Vec<u8>) {
+    let aad = plain_bytes(&hdr.plain);
+    let mut pt = proto_bytes(&hdr.proto);
+    pt.extend_from_slice(payload);
+    let (_, _, sec, ctr, _, _) = hdr.plain.verif_raw();
+    let nonce = spec_nonce(sec, ctr, node);
+    let ct = raw_seal(crypto, &key_bytes(crypto, key), &nonce, &aad, &pt);
+    let mut wire = aad.clone();
+    wire.extend_from_slice(&ct);
+    (Entry { key, nonce, aad, pt, ct }, wire)
+}
+
+/// an unencrypted datagram
+fn clear_wire(hdr: &PacketHdr, payload: &[u8]) -> Vec<u8> {
+    let mut w = plain_bytes(&hdr.plain);
+    w.extend_from_slice(&proto_bytes(&hdr.proto));
+    w.extend_from_slice(payload);
+    w
+}
+
+// ------------------------------------------------------------------ the real node
+
+struct Node {
+    matter: &'static Matter<'static>,
+    n_fabrics: usize,
+}
+
+impl Node {
+    fn new() -> Self {
+        let matter: &'static Matter<'static> =
+            Box::leak(Box::new(Matter::new(&TEST_DEV_DET, TEST_DEV_COMM, &TEST_DEV_ATT, 5540)));
+        Node { matter, n_fabrics: 0 }
+    }
+
+    /// empty fabrics 1..=n with the group key sets / mappings of `groups` (in order)
+    fn install_groups(&mut self, groups: &[GroupS]) {
+        assert_eq!(self.n_fabrics, 0);
+        let nfab = groups.iter().map(|g| g.fab).max().unwrap_or(0);
+        self.matter.with_state(|state| {
+            for _ in 0..nfab {
+                state.fabrics.add_with_post_init(|_| Ok(())).unwrap();
+            }
+            for (i, g) in groups.iter().enumerate() {
+                let fabric = state.fabrics.fabric_mut(NonZeroU8::new(g.fab).unwrap()).unwrap();
+                let set_id = 100 + i as u16;
+                let mut epoch_keys = rs_matter::utils::storage::Vec::new();
+                epoch_keys
+                    .push(GroupEpochKeyEntry { epoch_key: canon_key(&raw_key_bytes(g.key)), epoch_start_time: 0 })
+                    .map_err(|_| ())
+                    .unwrap();
+                fabric
+                    .groups_mut()
+                    .key_set_add(GroupKeySet { group_key_set_id: set_id, group_key_security_policy: 0, epoch_keys })
+                    .unwrap();
+                fabric
+                    .groups_mut()
+                    .key_map_add(GroupKeyMapping { group_id: g.gid, group_key_set_id: set_id })
+                    .unwrap();
+            }
+        });
+        self.n_fabrics = nfab as usize;
+    }
+
+    fn reset_sessions(&self) {
+        self.matter.with_state(|state| state.verif_sessions().reset());
+    }
+
+    fn install_sessions<C: Crypto>(&self, crypto: &C, sessions: &[SessS]) {
+        for s in sessions {
+            let deck = canon_key(&key_bytes(crypto, s.deck));
+            let enck = canon_key(&key_bytes(crypto, s.enck));
+            {
+                let mut rs = ReservedSession::reserve_now(self.matter, crypto).unwrap();
+                rs.update(
+                    s.lnode,
+                    s.pnode.unwrap_or(0),
+                    s.psid,
+                    s.lsid,
+                    s.addr.to_real(),
+                    s.mode.to_real(),
+                    Some(deck.reference()),
+                    Some(enck.reference()),
+                    None,
+                    None,
+                )
+                .unwrap();
+                rs.complete();
+            }
+            self.matter.with_state(|state| {
+                let sessions = state.verif_sessions();
+                let id = sessions.iter().last().unwrap().id();
+                let sess = sessions.get(id).unwrap();
+                sess.verif_set_raw(s.ctr.unwrap_or(0), s.expired, s.reserved, s.pnode);
+                *sess.verif_rx_ctr_state() = RxCtrState::verif_from_raw(s.win.0, s.win.1, s.win.2);
+                for (i, slot) in s.exchs.iter().enumerate() {
+                    let idx = sess.verif_add_exch(slot.as_ref().map(|e| e.id).unwrap_or(0), false).unwrap();
+                    assert_eq!(idx, i);
+                    match slot {
+                        Some(e) => {
+                            assert!(sess.verif_set_exch(i, e.role, e.state, e.retr, e.ack));
+                        }
+                        None => sess.verif_clear_exch(i),
+                    }
+                }
+            });
+        }
+    }
+
+    fn snapshot(&self, keys: &KeyTable) -> (Vec<SessS>, String) {
+        self.matter.with_state(|state| {
+            let sessions = state.verif_sessions();
+            let v: Vec<SessS> = sessions.iter().map(|s| sess_of_snapshot(&s.verif_snapshot(), keys)).collect();
+            let mut g = Vec::new();
+            let clock = sessions.verif_group_ctr_store().verif_for_each(|fab, node, max, bm, last| {
+                g.push(format!("{}.{}.{}.{}.{}", fab, node, max, bm, last));
+            });
+            (v, format!("{}/{}", if g.is_empty() { "-".to_string() } else { g.join(",") }, clock))
+        })
+    }
+
+    fn remove_slot(&self, idx: usize) {
+        self.matter.with_state(|state| {
+            let sessions = state.verif_sessions();
+            if let Some(id) = sessions.iter().nth(idx).map(|s| s.id()) {
+                sessions.remove(id);
+            }
+        });
+    }
+}
+
+fn sess_of_snapshot(s: &VerifSessionSnapshot, keys: &KeyTable) -> SessS {
+    let n = s.exchanges.iter().map(|e| e.index + 1).max().unwrap_or(0);
+    let mut exchs = vec![None; n];
+    for e in s.exchanges.iter() {
+        exchs[e.index] =
+            Some(ExchS { id: e.exch_id, role: e.role, state: e.state, retr: e.retrans_ctr, ack: e.ack_ctr });
+    }
+    SessS {
+        mode: Mode::of_real(&s.mode),
+        addr: AddrS::of_real(&s.peer_addr),
+        lnode: s.local_nodeid,
+        pnode: s.peer_nodeid,
+        deck: keys.id_of(s.dec_key_fingerprint),
+        enck: keys.id_of(s.enc_key_fingerprint),
+        lsid: s.local_sess_id,
+        psid: s.peer_sess_id,
+        ctr: Some(s.msg_ctr),
+        win: s.rx_ctr_state,
+        expired: s.expired,
+        reserved: s.reserved,
+        exchs,
+    }
+}
+
+fn err_class(e: &Error) -> char {
+    match e.code() {
+        ErrorCode::TruncatedPacket => 'T',
+        ErrorCode::Invalid => 'I',
+        ErrorCode::InvalidData => 'D',
+        ErrorCode::InvalidSignature => 'S',
+        ErrorCode::NoSession => 'N',
+        ErrorCode::Duplicate => 'U',
+        ErrorCode::NoExchange => 'E',
+        ErrorCode::NoSpaceExchanges => 'X',
+        ErrorCode::NoSpaceSessions => 'Z',
+        ErrorCode::BufferTooSmall => 'B',
+        _ => '?',
+    }
+}
+
+fn hdr_show(h: &PacketHdr) -> String {
+    let p = h.plain.verif_raw();
+    let x = h.proto.verif_raw();
+    format!("{}.{}.{}.{}.{}.{};{}.{}.{}.{}.{}.{}", p.0, p.1, p.2, p.3, p.4, p.5, x.0, x.1, x.2, x.3, x.4, x.5)
+}
+
+/// sessions after a decode, with the counters of sessions the call appended printed as `?`
+fn state_show(after: &[SessS], n_before: usize, gstore: &str) -> String {
+    let v: Vec<String> = after
+        .iter()
+        .enumerate()
+        .map(|(i, s)| {
+            if i >= n_before {
+                let mut t = s.clone();
+                t.ctr = None;
+                t.show()
+            } else {
+                s.show()
+            }
+        })
+        .collect();
+    format!("{}|{}", if v.is_empty() { "-".to_string() } else { v.join(";") }, gstore)
+}
+
+// ------------------------------------------------------------------ D cases
+
+enum Pre {
+    Wire(Vec<u8>),
+    Remove(usize),
+}
+
+struct DCase {
+    world: Vec<Entry>,
+    sessions: Vec<SessS>,
+    groups: Vec<GroupS>,
+    from: AddrS,
+    oracle: (u32, Option<usize>),
+    prelude: Vec<Pre>,
+    wire: Vec<u8>,
+    muts: Vec<String>,
+}
+
+impl DCase {
+    fn line(&self, id: usize) -> String {
+        let pre = if self.prelude.is_empty() {
+            "-".to_string()
+        } else {
+            self.prelude
+                .iter()
+                .map(|p| match p {
+                    Pre::Wire(w) => format!("w{}", hex(w)),
+                    Pre::Remove(i) => format!("r{}", i),
+                })
+                .collect::<Vec<_>>()
+                .join(",")
+        };
+        format!(
+            "D {} {} {} {} {} {}.{} {} {} {}",
+            id,
+            list_show(&self.world, Entry::show),
+            list_show(&self.sessions, SessS::show),
+            list_show(&self.groups, GroupS::show),
+            self.from.show(),
+            self.oracle.0,
+            opt_show(&self.oracle.1),
+            pre,
+            if self.wire.is_empty() { "-".to_string() } else { hex(&self.wire) },
+            self.muts.join(",")
+        )
+    }
+}
+
+fn ext_bytes(n: usize) -> Vec<u8> {
+    (0..n).map(|i| 0xA5u8 ^ (i as u8).wrapping_mul(29)).collect()
+}
+
+struct Runner<'a, C: Crypto> {
+    crypto: &'a C,
+    node: Node,
+    keys: KeyTable,
+    sessions: Vec<SessS>,
+    prelude: Vec<Pre>,
+    from: AddrS,
+    base: (Vec<SessS>, String),
+    dirty: bool,
+}
+
+impl<'a, C: Crypto> Runner<'a, C> {
+    fn rebuild(&mut self) {
+        self.node.reset_sessions();
+        self.node.install_sessions(self.crypto, &self.sessions);
+        let runner = TransportRunner::new(self.node.matter, self.crypto);
+        let mut pl = [0u8; 1600];
+        for p in &self.prelude {
+            match p {
+                Pre::Wire(w) => {
+                    let _ = runner.verif_decode_packet(self.from.to_real(), w, &mut pl);
+                }
+                Pre::Remove(i) => self.node.remove_slot(*i),
+            }
+        }
+        self.base = self.node.snapshot(&self.keys);
+        self.dirty = false;
+    }
+
+    /// one decode from the base state; returns (class char, token)
+    fn decode(&mut self, from: &AddrS, wire: &[u8]) -> (char, String) {
+        if self.dirty {
+            self.rebuild();
+        }
+        let runner = TransportRunner::new(self.node.matter, self.crypto);
+        let mut pl = [0u8; 1600];
+        let (res, hdr, n) = runner.verif_decode_packet(from.to_real(), wire, &mut pl);
+        let after = self.node.snapshot(&self.keys);
+        let (class, fields) = match &res {
+            Ok(b) => (if *b { 'K' } else { 'k' }, format!("[{};{}]", hdr_show(&hdr), hex(&pl[..n]))),
+            Err(e) => (err_class(e), String::new()),
+        };
+        let same = after == self.base;
+        let st = if same {
+            "=".to_string()
+        } else {
+            self.dirty = true;
+            format!("!{}", state_show(&after.0, self.base.0.len(), &after.1))
+        };
+        let special = res.is_ok() || !same;
+        (if special { '*' } else { class }, format!("{}{}{}", class, fields, st))
+    }
+}
+
+fn flip(wire: &[u8], bit: usize) -> Vec<u8> {
+    let mut w = wire.to_vec();
+    w[bit / 8] ^= 1 << (bit % 8);
+    w
+}
+
+fn run_d<C: Crypto>(crypto: &C, f: &[&str]) -> String {
+    let sessions = list_parse(f[3], SessS::parse);
+    let groups = list_parse(f[4], GroupS::parse);
+    let from = AddrS::parse(f[5]);
+    let prelude: Vec<Pre> = if f[7] == "-" {
+        vec![]
+    } else {
+        f[7].split(',')
+            .map(|t| if let Some(h) = t.strip_prefix('w') { Pre::Wire(unhex(h)) } else { Pre::Remove(t[1..].parse().unwrap()) })
+            .collect()
+    };
+    let wire = if f[8] == "-" { vec![] } else { unhex(f[8]) };
+    let mut key_ids: Vec<u32> = sessions.iter().flat_map(|s| [s.deck, s.enck]).collect();
+    key_ids.extend(groups.iter().map(|g| g.key));
+    let mut node = Node::new();
+    if !groups.is_empty() {
+        node.install_groups(&groups);
+    }
+    let mut r = Runner {
+        crypto,
+        node,
+        keys: KeyTable::new(crypto, &key_ids),
+        sessions,
+        prelude,
+        from: from.clone(),
+        base: (vec![], String::new()),
+        dirty: true,
+    };
+    let mut out = format!("D {}", f[1]);
+    for m in f[9].split(',') {
+        let tok = match m.as_bytes()[0] {
+            b'-' => r.decode(&from, &wire).1,
+            b'f' => r.decode(&from, &flip(&wire, m[1..].parse().unwrap())).1,
+            b't' => r.decode(&from, &wire[..m[1..].parse::<usize>().unwrap()]).1,
+            b'x' => {
+                let mut w = wire.clone();
+                w.extend_from_slice(&unhex(&m[1..]));
+                r.decode(&from, &w).1
+            }
+            b'w' => r.decode(&from, &unhex(&m[1..])).1,
+            b'a' => r.decode(&AddrS::parse(&m[1..]), &wire).1,
+            b'F' | b'T' | b'X' => {
+                let variants: Vec<Vec<u8>> = match m.as_bytes()[0] {
+                    b'F' => (0..wire.len() * 8).map(|b| flip(&wire, b)).collect(),
+                    b'T' => (0..wire.len()).map(|l| wire[..l].to_vec()).collect(),
+                    _ => (1..=16)
+                        .map(|n| {
+                            let mut w = wire.clone();
+                            w.extend_from_slice(&ext_bytes(n));
+                            w
+                        })
+                        .collect(),
+                };
+                let mut chars = String::with_capacity(variants.len());
+                let mut details = String::new();
+                for (i, w) in variants.iter().enumerate() {
+                    let (c, tok) = r.decode(&from, w);
+                    chars.push(c);
+                    if c == '*' {
+                        write!(details, "@{}:{}", i, tok).unwrap();
+                    }
+                }
+                format!("{}{}", chars, details)
+            }
+            _ => "?".to_string(),
+        };
+        out.push(' ');
+        out.push_str(&tok);
+    }
+    out
+}
+
+// ------------------------------------------------------------------ R cases
+
+struct RCase {
+    world: Vec<Entry>,
+    sender: SessS,
+    exch: Option<usize>,
+    gctr: Option<u32>,
+    pid: u16,
+    opcode: u8,
+    rel: bool,
+    payload: Vec<u8>,
+    receivers: Vec<SessS>,
+    groups: Vec<GroupS>,
+    from: AddrS,
+    oracle: (u32, Option<usize>),
+}
+
+impl RCase {
+    fn line(&self, id: usize) -> String {
+        format!(
+            "R {} {} {} {} {} {} {} {} {} {} {} {} {}.{}",
+            id,
+            list_show(&self.world, Entry::show),
+            self.sender.show(),
+            opt_show(&self.exch),
+            opt_show(&self.gctr),
+            self.pid,
+            self.opcode,
+            self.rel as u8,
+            if self.payload.is_empty() { "-".to_string() } else { hex(&self.payload) },
+            list_show(&self.receivers, SessS::show),
+            list_show(&self.groups, GroupS::show),
+            self.from.show(),
+            self.oracle.0,
+            opt_show(&self.oracle.1),
+        )
+    }
+}
+
+/// the real TX path on `sender`: (encoded header, datagram, sender session afterwards) or the error class
+fn real_send<C: Crypto>(
+    crypto: &C,
+    sender: &SessS,
+    exch: Option<usize>,
+    gctr: Option<u32>,
+    pid: u16,
+    opcode: u8,
+    rel: bool,
+    payload: &[u8],
+) -> Result<(PacketHdr, Vec<u8>, SessS), char> {
+    let node = Node::new();
+    node.install_sessions(crypto, std::slice::from_ref(sender));
+    let keys = KeyTable::new(crypto, &[sender.deck, sender.enck]);
+    let id = node.matter.with_state(|state| state.verif_sessions().iter().last().unwrap().id());
+    let runner = TransportRunner::new(node.matter, crypto);
+    let mut out = [0u8; 1600];
+    let r = runner.verif_write_packet(id, exch, gctr, MessageMeta::new(pid, opcode, rel), payload, &mut out);
+    let after = node.snapshot(&keys).0;
+    match r {
+        Ok((hdr, n)) => Ok((hdr, out[..n].to_vec(), after[0].clone())),
+        Err(e) => Err(err_class(&e)),
+    }
+}
+
+fn run_r<C: Crypto>(crypto: &C, f: &[&str]) -> String {
+    let sender = SessS::parse(f[3]);
+    let exch = if f[4] == "-" { None } else { Some(f[4].parse().unwrap()) };
+    let gctr = if f[5] == "-" { None } else { Some(f[5].parse().unwrap()) };
+    let (pid, opcode, rel) = (f[6].parse().unwrap(), f[7].parse().unwrap(), f[8] == "1");
+    let payload = if f[9] == "-" { vec![] } else { unhex(f[9]) };
+    let receivers = list_parse(f[10], SessS::parse);
+    let groups = list_parse(f[11], GroupS::parse);
+    let from = AddrS::parse(f[12]);
+    match real_send(crypto, &sender, exch, gctr, pid, opcode, rel, &payload) {
+        Err(c) => format!("R {} err:{}", f[1], c),
+        Ok((hdr, wire, after)) => {
+            let mut key_ids: Vec<u32> = receivers.iter().flat_map(|s| [s.deck, s.enck]).collect();
+            key_ids.extend(groups.iter().map(|g| g.key));
+            let mut node = Node::new();
+            if !groups.is_empty() {
+                node.install_groups(&groups);
+            }
+            let mut r = Runner {
+                crypto,
+                node,
+                keys: KeyTable::new(crypto, &key_ids),
+                sessions: receivers,
+                prelude: vec![],
+                from: from.clone(),
+                base: (vec![], String::new()),
+                dirty: true,
+            };
+            let tok = r.decode(&from, &wire).1;
+            format!("R {} tx[{}] {} {} {}", f[1], hdr_show(&hdr), hex(&wire), after.show(), tok)
+        }
+    }
+}
+
+fn run_line<C: Crypto>(crypto: &C, line: &str) -> Option<String> {
+    let f: Vec<&str> = line.split(' ').collect();
+    match f[0] {
+        "D" if f.len() == 10 => Some(run_d(crypto, &f)),
+        "R" if f.len() == 14 => Some(run_r(crypto, &f)),
+        _ => None,
+    }
+}
+
+// ------------------------------------------------------------------ generation
+
+const NODE_A: u64 = 0x0000_0001_1111_1111;
+const NODE_B: u64 = 0x2222_2222_0000_0002;
+const NODE_C: u64 = 0x0000_0000_0000_0333;
+/// the largest datagram the receive buffer takes
+const MAX_RX: usize = 1583;
+/// the largest payload the transmit buffer takes (1232 - 38 - 16)
+const MAX_TX_PAYLOAD: usize = 1178;
+
+fn payload_of(rng: &mut Rng, len: usize) -> Vec<u8> {
+    (0..len).map(|_| rng.below(256) as u8).collect()
+}
+
+#[allow(clippy::too_many_arguments)]
+fn mk_hdr(
+    flags_src: Option<u64>,
+    dst_u: Option<u64>,
+    dst_g: Option<u16>,
+    sess: u16,
+    sec: u8,
+    ctr: u32,
+    exch: u16,
+    xflags: u8,
+    pid: u16,
+    opcode: u8,
+    vendor: Option<u16>,
+    ack: Option<u32>,
+) -> PacketHdr {
+    let mut h = PacketHdr::new();
+    h.plain = PlainHdr::verif_from_raw(0, sess, sec, ctr, 0, 0).unwrap();
+    h.plain.set_src_nodeid(flags_src);
+    if dst_u.is_some() {
+        h.plain.set_dst_unicast_nodeid(dst_u);
+    }
+    if dst_g.is_some() {
+        h.plain.set_dst_groupcast_nodeid(dst_g);
+    }
+    h.proto = ProtoHdr::verif_from_raw(exch, xflags, pid, opcode, 0, 0).unwrap();
+    h.proto.set_vendor(vendor);
+    h.proto.set_ack(ack);
+    h
+}
+
+fn sess(mode: Mode, addr: AddrS, lnode: u64, pnode: Option<u64>, deck: u32, enck: u32, lsid: u16, psid: u16) -> SessS {
+    SessS {
+        mode,
+        addr,
+        lnode,
+        pnode,
+        deck,
+        enck,
+        lsid,
+        psid,
+        ctr: Some(1000),
+        win: (false, 0, 0),
+        expired: false,
+        reserved: false,
+        exchs: vec![],
+    }
+}
+
+fn ex(id: u16, role: char, state: char, retr: Option<u32>, ack: Option<(u32, bool)>) -> Option<ExchS> {
+    Some(ExchS { id, role, state, retr, ack })
+}
+
+struct Gen<'a, C: Crypto> {
+    crypto: &'a C,
+    rng: Rng,
+    lines: Vec<String>,
+    stats: BTreeMap<String, u64>,
+}
+
+impl<'a, C: Crypto> Gen<'a, C> {
+    fn count(&mut self, k: &str, n: u64) {
+        *self.stats.entry(k.to_string()).or_insert(0) += n;
+    }
+    fn push_d(&mut self, stream: &str, c: DCase) {
+        let id = self.lines.len();
+        let mut n = 0u64;
+        for m in &c.muts {
+            n += match m.as_bytes()[0] {
+                b'F' => c.wire.len() as u64 * 8,
+                b'T' => c.wire.len() as u64,
+                b'X' => 16,
+                _ => 1,
+            };
+        }
+        self.count("decodes", n);
+        self.count(&format!("cases_{}", stream), 1);
+        self.lines.push(c.line(id));
+    }
+    fn push_r(&mut self, stream: &str, c: RCase) {
+        let id = self.lines.len();
+        self.count("decodes", 1);
+        self.count("encodes", 1);
+        self.count(&format!("cases_{}", stream), 1);
+        self.lines.push(c.line(id));
+    }
+}
+
+fn addr_a() -> AddrS {
+    AddrS::udp4(1, 5541)
+}
+fn addr_b() -> AddrS {
+    AddrS::udp4(2, 5542)
+}
+
+/// the usual receiver table: a decoy on another session id, the target, a session with the
+/// target's id at another address
+fn table_with(target: SessS) -> Vec<SessS> {
+    let decoy = sess(Mode::Case(1), addr_a(), NODE_B, Some(NODE_C), 21, 22, target.lsid.wrapping_add(1), 77);
+    let mut twin = target.clone();
+    twin.addr = AddrS::udp4(9, 5549);
+    twin.deck = 23;
+    twin.enck = 24;
+    vec![decoy, target, twin]
+}
+
+fn generate<C: Crypto>(crypto: &C, tier: &str, seed: u64) -> (Vec<String>, BTreeMap<String, u64>) {
+    let thorough = tier == "thorough";
+    let mut g = Gen { crypto, rng: Rng::new(seed ^ 0xC03), lines: vec![], stats: BTreeMap::new() };
+    let tamper = |small: bool| -> Vec<String> {
+        let mut m = vec!["-".to_string()];
+        if small {
+            m.push("F".into());
+        }
+        m.push("T".into());
+        m.push("X".into());
+        m
+    };
+
+    // ---------------------------------------------------------------- U: secure unicast, header shapes x modes x lengths
+    // (mode, sender node id used in the nonce, receiver's peer node, transport kind)
+    let modes: Vec<(&str, Mode, u64, Option<u64>, u8)> = vec![
+        ("pase", Mode::Pase(0), 0, Some(0), 0),
+        ("case", Mode::Case(1), NODE_A, Some(NODE_A), 0),
+        ("case-nopeer", Mode::Case(1), 0, None, 0),
+        ("case-tcp", Mode::Case(2), NODE_A, Some(NODE_A), 1),
+        ("case-btp", Mode::Case(1), NODE_A, Some(NODE_A), 2),
+    ];
+    // header shapes: (src, dst unicast, dst group, sec flags, exch flags, vendor, ack)
+    let shapes: Vec<(Option<u64>, Option<u64>, Option<u16>, u8, u8, Option<u16>, Option<u32>)> = vec![
+        (None, None, None, 0x00, 0x05, None, None),
+        (None, None, None, 0x00, 0x02, None, Some(0xdead_beef)),
+        (None, None, None, 0x00, 0x15, Some(0xfff1), None),
+        (None, None, None, 0x00, 0x1f, Some(0x1234), Some(7)),
+        (Some(NODE_A), None, None, 0x00, 0x05, None, None),
+        (Some(NODE_C), None, None, 0x00, 0x05, None, None),
+        (None, Some(NODE_B), None, 0x00, 0x04, None, None),
+        (Some(NODE_A), Some(NODE_B), None, 0x00, 0x0d, None, None),
+        (None, None, Some(0x0102), 0x00, 0x05, None, None),
+        (None, None, None, 0x40, 0x05, None, None),
+        (None, None, None, 0x20, 0x01, None, None),
+        (None, None, None, 0x80, 0x05, None, None),
+        (None, None, None, 0xe0, 0x00, None, None),
+    ];
+    let lens: Vec<usize> = vec![0, 1, 15, 16, 17];
+    let mut ctr = 5000u32;
+    for (mi, (mname, mode, snode, rpeer, kind)) in modes.iter().enumerate() {
+        for (si, sh) in shapes.iter().enumerate() {
+            // quick: every shape on CASE, a diagonal elsewhere
+            if !thorough && mi != 1 && (si + mi) % 4 != 0 {
+                continue;
+            }
+            let len = lens[(si + mi) % lens.len()];
+            let mut from = addr_a();
+            from.kind = *kind;
+            if *kind == 2 {
+                from = AddrS { kind: 2, v6: false, ip: 0x0000_a1b2_c3d4_e5f6, port: 0 };
+            }
+            let mut target = sess(mode.clone(), from.clone(), NODE_B, *rpeer, 11, 12, 7, 9);
+            target.exchs = vec![ex(3, 'R', 'o', None, None)];
+            // a source node id in the header stands for the sender only if it is the peer's
+            let src = match (sh.0, *rpeer) {
+                (Some(n), Some(p)) if n == NODE_A => Some(p),
+                (s, _) => s,
+            };
+            ctr += 1;
+            let hdr = mk_hdr(src, sh.1, sh.2, 7, sh.3, ctr, 40 + si as u16, sh.4, 1, 2, sh.5, sh.6);
+            let payload = payload_of(&mut g.rng, len);
+            let (e, wire) = honest(crypto, 11, *snode, &hdr, &payload);
+            let sessions = table_with(target);
+            g.push_d(
+                &format!("U-{}", mname),
+                DCase {
+                    world: vec![e],
+                    sessions,
+                    groups: vec![],
+                    from,
+                    oracle: (0, None),
+                    prelude: vec![],
+                    wire,
+                    muts: tamper(true),
+                },
+            );
+        }
+    }
+
+    // ---------------------------------------------------------------- L: payload lengths up to the maximum
+    let big: Vec<(usize, bool)> = if thorough {
+        vec![(MAX_TX_PAYLOAD - 1, true), (MAX_TX_PAYLOAD, true), (MAX_RX - 8 - 6 - 16 - 1, true), (MAX_RX - 8 - 6 - 16, true)]
+    } else {
+        vec![(MAX_TX_PAYLOAD - 1, false), (MAX_TX_PAYLOAD, true), (MAX_RX - 8 - 6 - 16 - 1, false), (MAX_RX - 8 - 6 - 16, false)]
+    };
+    for (len, flips) in big {
+        ctr += 1;
+        let target = sess(Mode::Case(1), addr_a(), NODE_B, Some(NODE_A), 11, 12, 7, 9);
+        let hdr = mk_hdr(None, None, None, 7, 0, ctr, 50, 0x05, 1, 5, None, None);
+        let payload = payload_of(&mut g.rng, len);
+        let (e, wire) = honest(crypto, 11, NODE_A, &hdr, &payload);
+        let mut muts = tamper(flips);
+        // one byte more than the receive buffer holds is never seen by the node; the largest
+        // datagram extended stays within the model only when it fits
+        if wire.len() + 16 > MAX_RX {
+            muts.retain(|m| m != "X");
+        }
+        g.push_d(
+            "L",
+            DCase {
+                world: vec![e],
+                sessions: table_with(target),
+                groups: vec![],
+                from: addr_a(),
+                oracle: (0, None),
+                prelude: vec![],
+                wire,
+                muts,
+            },
+        );
+    }
+
+    // ---------------------------------------------------------------- S: wrong session / direction / node / address, transplants
+    {
+        // A -> B on the session (A: enc 11 / dec 12, B: dec 11 / enc 12)
+        let b_end = sess(Mode::Case(1), addr_a(), NODE_B, Some(NODE_A), 11, 12, 7, 9);
+        let mut a_end = sess(Mode::Case(1), addr_b(), NODE_A, Some(NODE_B), 12, 11, 9, 7);
+        a_end.ctr = Some(6001);
+        let payload = payload_of(&mut g.rng, 24);
+        let hdr1 = mk_hdr(None, None, None, 7, 0, 6000, 60, 0x05, 1, 2, None, None);
+        let hdr2 = mk_hdr(None, None, None, 7, 0, 6001, 60, 0x05, 1, 2, None, None);
+        let (e1, w1) = honest(crypto, 11, NODE_A, &hdr1, &payload);
+        let (e2, w2) = honest(crypto, 11, NODE_A, &hdr2, &payload_of(&mut g.rng, 24));
+        // another session of B (other keys) with a packet of its own
+        let other = sess(Mode::Case(1), addr_a(), NODE_B, Some(NODE_A), 31, 32, 8, 10);
+        let hdr3 = mk_hdr(None, None, None, 8, 0, 6000, 60, 0x05, 1, 2, None, None);
+        let (e3, w3) = honest(crypto, 31, NODE_A, &hdr3, &payload);
+        // sealed by another source node with the right key
+        let (e4, w4) = honest(crypto, 11, NODE_C, &hdr1, &payload);
+        // sealed for the opposite direction (B -> A) with B's sending key
+        let hdr5 = mk_hdr(None, None, None, 9, 0, 6000, 60, 0x05, 1, 2, None, None);
+        let (e5, w5) = honest(crypto, 12, NODE_B, &hdr5, &payload);
+        let hl = e1.aad.len();
+        let transplant = |h: &[u8], b: &[u8]| -> String {
+            let mut w = h.to_vec();
+            w.extend_from_slice(b);
+            format!("w{}", hex(&w))
+        };
+        let world = vec![e1.clone(), e2.clone(), e3.clone(), e4.clone(), e5.clone()];
+        let mut v4mapped = addr_a();
+        v4mapped.v6 = true;
+        v4mapped.ip = 0xffff_0000_0000u128 | addr_a().ip;
+        let muts = vec![
+            "-".to_string(),
+            // header of one, body of the other (same session, other counter)
+            transplant(&w1[..hl], &w2[hl..]),
+            transplant(&w2[..hl], &w1[hl..]),
+            // header of this session, body sealed for the other session and vice versa
+            transplant(&w1[..hl], &w3[hl..]),
+            transplant(&w3[..hl], &w1[hl..]),
+            // the other session's packet as it is, the other node's sealing, the reflected packet
+            format!("w{}", hex(&w3)),
+            format!("w{}", hex(&w4)),
+            format!("w{}", hex(&w5)),
+            // protocol header bytes of one spliced into the ciphertext of the other
+            transplant(&w1[..hl + 6], &w2[hl + 6..]),
+            // tag transplant
+            transplant(&w1[..w1.len() - 16], &w2[w2.len() - 16..]),
+            // other addresses: port, host, transport, the IPv4-mapped form of the right one
+            format!("a{}", AddrS::udp4(1, 5540).show()),
+            format!("a{}", AddrS::udp4(3, 5541).show()),
+            format!("a{}", AddrS { kind: 1, ..addr_a() }.show()),
+            format!("a{}", v4mapped.show()),
+            format!("a{}", AddrS { kind: 0, v6: true, ip: 0xfe80_0000_0000_0000_0000_0000_0a00_0001, port: 5541 }.show()),
+        ];
+        g.push_d(
+            "S",
+            DCase {
+                world: world.clone(),
+                sessions: vec![other.clone(), b_end.clone()],
+                groups: vec![],
+                from: addr_a(),
+                oracle: (0, None),
+                prelude: vec![],
+                wire: w1.clone(),
+                muts,
+            },
+        );
+        // the same datagrams offered to A itself (opposite direction), from B's address
+        g.push_d(
+            "S",
+            DCase {
+                world: world.clone(),
+                sessions: vec![a_end.clone()],
+                groups: vec![],
+                from: addr_b(),
+                oracle: (0, None),
+                prelude: vec![],
+                wire: w5.clone(),
+                muts: vec!["-".into(), format!("w{}", hex(&w1)), format!("w{}", hex(&w3))],
+            },
+        );
+        // receivers that differ from the right one in one identity each
+        let variants: Vec<(&str, SessS)> = vec![
+            ("key", SessS { deck: 41, ..b_end.clone() }),
+            ("peer", SessS { pnode: Some(NODE_C), ..b_end.clone() }),
+            ("nopeer", SessS { pnode: None, ..b_end.clone() }),
+            ("lsid", SessS { lsid: 6, ..b_end.clone() }),
+            ("reserved", SessS { reserved: true, ..b_end.clone() }),
+            ("plain", SessS { mode: Mode::Plain, ..b_end.clone() }),
+            ("pase", SessS { mode: Mode::Pase(0), ..b_end.clone() }),
+            ("expired", SessS { expired: true, ..b_end.clone() }),
+            ("addr", SessS { addr: AddrS::udp4(1, 5543), ..b_end.clone() }),
+            ("keys-swapped", SessS { deck: 12, enck: 11, ..b_end.clone() }),
+        ];
+        for (_, v) in variants {
+            g.push_d(
+                "S",
+                DCase {
+                    world: world.clone(),
+                    sessions: vec![v, other.clone()],
+                    groups: vec![],
+                    from: addr_a(),
+                    oracle: (0, None),
+                    prelude: vec![],
+                    wire: w1.clone(),
+                    muts: vec!["-".into(), "f0".into(), format!("f{}", w1.len() * 8 - 1)],
+                },
+            );
+        }
+        // two sessions match: the first in table order takes it
+        g.push_d(
+            "S",
+            DCase {
+                world: world.clone(),
+                sessions: vec![SessS { deck: 41, ..b_end.clone() }, b_end.clone()],
+                groups: vec![],
+                from: addr_a(),
+                oracle: (0, None),
+                prelude: vec![],
+                wire: w1.clone(),
+                muts: vec!["-".into()],
+            },
+        );
+    }
+
+    // ---------------------------------------------------------------- X: what happens after authentication (window, exchanges)
+    {
+        let base = sess(Mode::Case(1), addr_a(), NODE_B, Some(NODE_A), 11, 12, 7, 9);
+        // (window, exchanges, expired, message: ctr, exch id, exch flags, proto, opcode, ack)
+        #[allow(clippy::type_complexity)]
+        let rows: Vec<((bool, u32, u16), Vec<Option<ExchS>>, bool, (u32, u16, u8, u16, u8, Option<u32>))> = vec![
+            // first message of a session, initiator, reliable: new exchange
+            ((false, 0, 0), vec![], false, (100, 5, 0x05, 1, 2, None)),
+            // replay of the newest counter; replay inside the window; fresh inside the window; too old
+            ((true, 100, 0b101), vec![], false, (100, 5, 0x05, 1, 2, None)),
+            ((true, 100, 0b101), vec![], false, (99, 5, 0x05, 1, 2, None)),
+            ((true, 100, 0b101), vec![], false, (98, 5, 0x05, 1, 2, None)),
+            ((true, 100, 0b101), vec![], false, (83, 5, 0x05, 1, 2, None)),
+            // routed to an existing exchange (we are the initiator there), with a matching / wrong ack
+            ((true, 100, 0), vec![ex(5, 'I', 'o', Some(1000), None)], false, (101, 5, 0x06, 1, 3, Some(1000))),
+            ((true, 100, 0), vec![ex(5, 'I', 'o', Some(1000), None)], false, (101, 5, 0x06, 1, 3, Some(999))),
+            ((true, 100, 0), vec![ex(5, 'I', 'o', None, Some((90, false)))], false, (101, 5, 0x04, 1, 3, None)),
+            // responder exchange exists; same id with the wrong direction bit
+            ((true, 100, 0), vec![ex(5, 'R', 'o', None, None)], false, (101, 5, 0x01, 1, 2, None)),
+            ((true, 100, 0), vec![ex(5, 'R', 'o', None, None)], false, (101, 5, 0x00, 1, 2, None)),
+            // not an initiator and no exchange; standalone ack; status report
+            ((true, 100, 0), vec![], false, (101, 6, 0x04, 1, 2, None)),
+            ((true, 100, 0), vec![], false, (101, 6, 0x03, 0, 0x10, Some(1))),
+            ((true, 100, 0), vec![], false, (101, 6, 0x01, 0, 0x40, None)),
+            // expired session refuses new exchanges, still serves old ones
+            ((true, 100, 0), vec![], true, (101, 6, 0x05, 1, 2, None)),
+            ((true, 100, 0), vec![ex(6, 'R', 'o', None, None)], true, (101, 6, 0x05, 1, 2, None)),
+            // exchange table full; a freed slot is reused
+            (
+                (true, 100, 0),
+                vec![ex(1, 'R', 'o', None, None), ex(2, 'R', 'o', None, None), ex(3, 'I', 'o', None, None), ex(4, 'R', 'd', None, None), ex(8, 'R', 'p', None, None)],
+                false,
+                (101, 6, 0x05, 1, 2, None),
+            ),
+            (
+                (true, 100, 0),
+                vec![ex(1, 'R', 'o', None, None), None, ex(3, 'I', 'o', None, None), ex(4, 'R', 'd', None, None), ex(8, 'R', 'p', None, None)],
+                false,
+                (101, 6, 0x05, 1, 2, None),
+            ),
+            // far ahead: window resets
+            ((true, 100, 0xffff), vec![], false, (0x8000_0000, 6, 0x05, 1, 2, None)),
+            ((true, 0xffff_fff0, 0xffff), vec![], false, (3, 6, 0x05, 1, 2, None)),
+        ];
+        for (win, exchs, expired, m) in rows {
+            let mut target = base.clone();
+            target.win = win;
+            target.exchs = exchs;
+            target.expired = expired;
+            let hdr = mk_hdr(None, None, None, 7, 0, m.0, m.1, m.2, m.3, m.4, None, m.5);
+            let payload = payload_of(&mut g.rng, 9);
+            let (e, wire) = honest(crypto, 11, NODE_A, &hdr, &payload);
+            let n = wire.len();
+            g.push_d(
+                "X",
+                DCase {
+                    world: vec![e],
+                    sessions: table_with(target),
+                    groups: vec![],
+                    from: addr_a(),
+                    oracle: (0, None),
+                    prelude: vec![],
+                    wire: wire.clone(),
+                    muts: vec!["-".into(), "F".into(), format!("t{}", n - 1), "x00".into()],
+                },
+            );
+        }
+        // a sealed plaintext that is not a protocol header: authentic, then refused, nothing moves
+        for pt in [vec![0xffu8, 1, 2, 3, 4, 5], vec![0x05u8, 2, 1], vec![], vec![0x12u8, 2, 1, 0, 1, 0, 9]] {
+            let hdr = mk_hdr(None, None, None, 7, 0, 200, 0, 0, 0, 0, None, None);
+            let aad = plain_bytes(&hdr.plain);
+            let nonce = spec_nonce(0, 200, NODE_A);
+            let ct = raw_seal(crypto, &key_bytes(crypto, 11), &nonce, &aad, &pt);
+            let mut wire = aad.clone();
+            wire.extend_from_slice(&ct);
+            g.push_d(
+                "X",
+                DCase {
+                    world: vec![Entry { key: 11, nonce, aad, pt, ct }],
+                    sessions: table_with(base.clone()),
+                    groups: vec![],
+                    from: addr_a(),
+                    oracle: (0, None),
+                    prelude: vec![],
+                    wire,
+                    muts: vec!["-".into(), "F".into()],
+                },
+            );
+        }
+        // sequences: the second datagram meets the state the first one left
+        let h1 = mk_hdr(None, None, None, 7, 0, 300, 5, 0x05, 1, 2, None, None);
+        let h2 = mk_hdr(None, None, None, 7, 0, 301, 5, 0x05, 1, 2, None, Some(1));
+        let (e1, w1) = honest(crypto, 11, NODE_A, &h1, &[1, 2, 3]);
+        let (e2, w2) = honest(crypto, 11, NODE_A, &h2, &[4, 5]);
+        g.push_d(
+            "X",
+            DCase {
+                world: vec![e1, e2],
+                sessions: table_with(base.clone()),
+                groups: vec![],
+                from: addr_a(),
+                oracle: (0, None),
+                prelude: vec![Pre::Wire(w1.clone())],
+                wire: w2.clone(),
+                muts: vec!["-".into(), format!("w{}", hex(&w1)), "F".into()],
+            },
+        );
+    }
+
+    // ---------------------------------------------------------------- P: unsecured messages
+    {
+        let req = |src: Option<u64>, dst: Option<u64>, opcode: u8, xflags: u8, ctr: u32| {
+            mk_hdr(src, dst, None, 0, 0, ctr, 70, xflags, 0, opcode, None, None)
+        };
+        // no session: PBKDFParamRequest / CASESigma1 create one, anything else does not
+        for (src, opcode, xflags) in [
+            (Some(NODE_A), 0x20u8, 0x05u8),
+            (None, 0x20, 0x05),
+            (Some(NODE_A), 0x30, 0x05),
+            (Some(NODE_A), 0x30, 0x04),
+            (Some(NODE_A), 0x22, 0x05),
+            (Some(NODE_A), 0x40, 0x01),
+        ] {
+            let hdr = req(src, None, opcode, xflags, 400);
+            let wire = clear_wire(&hdr, &[9, 9, 9]);
+            let secure = sess(Mode::Case(1), addr_a(), NODE_B, Some(NODE_A), 11, 12, 7, 9);
+            g.push_d(
+                "P",
+                DCase {
+                    world: vec![],
+                    sessions: vec![secure],
+                    groups: vec![],
+                    from: addr_a(),
+                    oracle: (0, None),
+                    prelude: vec![],
+                    wire: wire.clone(),
+                    muts: vec!["-".into(), "F".into(), "T".into()],
+                },
+            );
+        }
+        // an unsecured session exists (initiator side: local node id = the ephemeral id we sent)
+        let mut un = sess(Mode::Plain, addr_a(), NODE_B, Some(NODE_A), 0, 0, 0, 0);
+        un.exchs = vec![ex(70, 'I', 'o', Some(1000), None)];
+        for (src, dst) in [(Some(NODE_A), Some(NODE_B)), (Some(NODE_A), Some(NODE_C)), (Some(NODE_C), Some(NODE_B)), (None, None), (Some(NODE_A), None)] {
+            let hdr = mk_hdr(src, dst, None, 0, 0, 401, 70, 0x06, 0, 0x21, None, Some(1000));
+            let wire = clear_wire(&hdr, &[1]);
+            g.push_d(
+                "P",
+                DCase {
+                    world: vec![],
+                    sessions: vec![un.clone()],
+                    groups: vec![],
+                    from: addr_a(),
+                    oracle: (0, None),
+                    prelude: vec![],
+                    wire,
+                    muts: vec!["-".into(), "F".into()],
+                },
+            );
+        }
+        // session table full: an unsecured session request finds no room
+        let mut full = Vec::new();
+        for i in 0..16u16 {
+            full.push(sess(Mode::Case(1), addr_a(), NODE_B, Some(NODE_A), 11, 12, 100 + i, 9));
+        }
+        let hdr = req(Some(NODE_A), None, 0x20, 0x05, 402);
+        g.push_d(
+            "P",
+            DCase {
+                world: vec![],
+                sessions: full,
+                groups: vec![],
+                from: addr_a(),
+                oracle: (0, None),
+                prelude: vec![],
+                wire: clear_wire(&hdr, &[]),
+                muts: vec!["-".into()],
+            },
+        );
+        // a secured-looking datagram for which there is no session at all; an empty one
+        let hdr = mk_hdr(None, None, None, 99, 0, 1, 1, 0x05, 1, 2, None, None);
+        let (e, wire) = honest(crypto, 11, NODE_A, &hdr, &[1, 2]);
+        g.push_d(
+            "P",
+            DCase {
+                world: vec![e],
+                sessions: vec![],
+                groups: vec![],
+                from: addr_a(),
+                oracle: (0, None),
+                prelude: vec![],
+                wire,
+                muts: vec!["-".into(), "F".into(), "T".into()],
+            },
+        );
+    }
+
+    // ---------------------------------------------------------------- G: group messages
+    {
+        let k1 = GROUP_KEY_BASE + 1;
+        let k2 = GROUP_KEY_BASE + 2;
+        let k3 = GROUP_KEY_BASE + 3;
+        let groups = vec![
+            GroupS { fab: 1, node: 0, gid: 0x0101, key: k1, sid: group_sid(crypto, k1) },
+            GroupS { fab: 1, node: 0, gid: 0x0102, key: k2, sid: group_sid(crypto, k2) },
+            GroupS { fab: 2, node: 0, gid: 0x0101, key: k3, sid: group_sid(crypto, k3) },
+        ];
+        let unicast = sess(Mode::Case(1), addr_a(), NODE_B, Some(NODE_A), 11, 12, 7, 9);
+        let ghdr = |gi: usize, sec: u8, ctr: u32, src: Option<u64>, dstu: Option<u64>, gid: Option<u16>| {
+            mk_hdr(src, dstu, gid, groups[gi].sid, 0x01 | sec, ctr, 80, 0x01, 1, 8, None, None)
+        };
+        // data message to group 0x0101 under key 1; the same under the second fabric's key; group 0x0102
+        let mut wires = Vec::new();
+        let mut world = Vec::new();
+        for (gi, ctr) in [(0usize, 700u32), (2, 701), (1, 702)] {
+            let hdr = ghdr(gi, 0, ctr, Some(NODE_A), None, Some(groups[gi].gid));
+            let (e, w) = honest(crypto, groups[gi].key, NODE_A, &hdr, &payload_of(&mut g.rng, 11));
+            world.push(e);
+            wires.push(w);
+        }
+        for (i, w) in wires.iter().enumerate() {
+            g.push_d(
+                "G",
+                DCase {
+                    world: world.clone(),
+                    sessions: vec![unicast.clone()],
+                    groups: groups.clone(),
+                    from: addr_a(),
+                    oracle: (7, None),
+                    prelude: vec![],
+                    wire: w.clone(),
+                    muts: if i == 0 { tamper(true) } else { vec!["-".into(), "T".into()] },
+                },
+            );
+        }
+        // replays: after the first message (and the removal of its ephemeral session) the group
+        // counter store knows the sender; with the ephemeral session still there it takes the message
+        let hdr_next = ghdr(0, 0, 703, Some(NODE_A), None, Some(0x0101));
+        let (e_next, w_next) = honest(crypto, k1, NODE_A, &hdr_next, &[5, 5]);
+        let mut world2 = world.clone();
+        world2.push(e_next);
+        g.push_d(
+            "G",
+            DCase {
+                world: world2.clone(),
+                sessions: vec![unicast.clone()],
+                groups: groups.clone(),
+                from: addr_a(),
+                oracle: (7, None),
+                prelude: vec![Pre::Wire(wires[0].clone()), Pre::Remove(1)],
+                wire: wires[0].clone(),
+                muts: vec!["-".into(), format!("w{}", hex(&w_next)), "f0".into(), format!("f{}", wires[0].len() * 8 - 3)],
+            },
+        );
+        g.push_d(
+            "G",
+            DCase {
+                world: world2.clone(),
+                sessions: vec![unicast.clone()],
+                groups: groups.clone(),
+                from: addr_a(),
+                oracle: (7, None),
+                prelude: vec![Pre::Wire(wires[0].clone())],
+                wire: wires[0].clone(),
+                muts: vec!["-".into(), format!("w{}", hex(&w_next)), format!("w{}", hex(&wires[1]))],
+            },
+        );
+        // malformed group headers, sealed honestly: no source id; no destination; unknown group;
+        // unknown session id; control message to our node id (0) and to another node id
+        let odd: Vec<PacketHdr> = vec![
+            ghdr(0, 0, 710, None, None, Some(0x0101)),
+            ghdr(0, 0, 711, Some(NODE_A), None, None),
+            ghdr(0, 0, 712, Some(NODE_A), None, Some(0x0999)),
+            mk_hdr(Some(NODE_A), None, Some(0x0101), groups[0].sid ^ 0x5a5a, 0x01, 713, 80, 0x01, 1, 8, None, None),
+            ghdr(0, 0x40, 714, Some(NODE_A), Some(0), None),
+            ghdr(0, 0x40, 715, Some(NODE_A), Some(NODE_B), None),
+            ghdr(1, 0x40, 716, Some(NODE_A), Some(0), None),
+        ];
+        for (i, hdr) in odd.iter().enumerate() {
+            let key = if i == 6 { k2 } else { k1 };
+            let (e, w) = honest(crypto, key, NODE_A, hdr, &[1, 2, 3, 4]);
+            g.push_d(
+                "G",
+                DCase {
+                    world: vec![e],
+                    sessions: vec![unicast.clone()],
+                    groups: groups.clone(),
+                    from: addr_a(),
+                    oracle: (7, None),
+                    prelude: vec![],
+                    wire: w,
+                    muts: vec!["-".into(), "F".into()],
+                },
+            );
+        }
+        // more than 1280 encrypted bytes in a group message
+        let hdr = ghdr(0, 0, 720, Some(NODE_A), None, Some(0x0101));
+        for len in [1280 - 6 - 16, 1280 - 6 - 16 + 1] {
+            let (e, w) = honest(crypto, k1, NODE_A, &hdr, &payload_of(&mut g.rng, len));
+            g.push_d(
+                "G",
+                DCase {
+                    world: vec![e],
+                    sessions: vec![unicast.clone()],
+                    groups: groups.clone(),
+                    from: addr_a(),
+                    oracle: (7, None),
+                    prelude: vec![],
+                    wire: w,
+                    muts: vec!["-".into()],
+                },
+            );
+        }
+        // a full session table in which nothing can be evicted (every session holds an exchange)
+        let mut full = Vec::new();
+        for i in 0..16u16 {
+            let mut s = sess(Mode::Case(1), addr_a(), NODE_B, Some(NODE_A), 11, 12, 100 + i, 9);
+            s.exchs = vec![ex(1, 'R', 'o', None, None)];
+            full.push(s);
+        }
+        g.push_d(
+            "G",
+            DCase {
+                world: world.clone(),
+                sessions: full,
+                groups: groups.clone(),
+                from: addr_a(),
+                oracle: (7, None),
+                prelude: vec![],
+                wire: wires[0].clone(),
+                muts: vec!["-".into()],
+            },
+        );
+    }
+
+    // ---------------------------------------------------------------- R: round trips through the real TX path
+    {
+        let tx_lens: Vec<usize> = vec![0, 1, 15, 16, 17, MAX_TX_PAYLOAD - 1, MAX_TX_PAYLOAD];
+        // (name, sender, receiver, from)
+        let mut pairs: Vec<(&str, SessS, SessS, AddrS)> = Vec::new();
+        let a_case = sess(Mode::Case(1), addr_b(), NODE_A, Some(NODE_B), 12, 11, 9, 7);
+        let b_case = sess(Mode::Case(1), addr_a(), NODE_B, Some(NODE_A), 11, 12, 7, 9);
+        pairs.push(("case", a_case.clone(), b_case.clone(), addr_a()));
+        let a_pase = sess(Mode::Pase(0), addr_b(), 0, Some(0), 14, 13, 19, 17);
+        let b_pase = sess(Mode::Pase(0), addr_a(), 0, Some(0), 13, 14, 17, 19);
+        pairs.push(("pase", a_pase, b_pase, addr_a()));
+        let tcp_a = AddrS { kind: 1, ..addr_a() };
+        let tcp_b = AddrS { kind: 1, ..addr_b() };
+        pairs.push(("case-tcp", SessS { addr: tcp_b, ..a_case.clone() }, SessS { addr: tcp_a.clone(), ..b_case.clone() }, tcp_a));
+        // unsecured: the initiator's ephemeral node id travels as source, the responder echoes it
+        let a_plain = sess(Mode::Plain, addr_b(), NODE_A, None, 0, 0, 0, 0);
+        let b_plain = sess(Mode::Plain, addr_a(), 0, Some(NODE_A), 0, 0, 0, 0);
+        pairs.push(("plain", a_plain, b_plain, addr_a()));
+        for (name, s, r, from) in pairs {
+            for (li, len) in tx_lens.iter().enumerate() {
+                for variant in 0..3usize {
+                    if !thorough && variant > 0 && li % 3 != variant {
+                        continue;
+                    }
+                    let mut sender = s.clone();
+                    let mut receiver = r.clone();
+                    let payload = payload_of(&mut g.rng, *len);
+                    // variant 0: no exchange; 1: our initiator exchange; 2: our responder exchange with a pending ack
+                    let (exch, rel) = match variant {
+                        0 => (None, li % 2 == 0),
+                        1 => {
+                            sender.exchs = vec![ex(33, 'I', 'o', None, None)];
+                            receiver.exchs = vec![];
+                            (Some(0), true)
+                        }
+                        _ => {
+                            sender.exchs = vec![None, ex(34, 'R', 'o', None, Some((555, false)))];
+                            receiver.exchs = vec![ex(34, 'I', 'o', Some(555), None)];
+                            (Some(1), false)
+                        }
+                    };
+                    sender.ctr = Some(2000 + 10 * li as u32 + variant as u32);
+                    let (pid, opcode) = (1u16, 5u8);
+                    let Ok((hdr, _wire, _)) = real_send(crypto, &sender, exch, None, pid, opcode, rel, &payload) else {
+                        continue;
+                    };
+                    let world = if sender.mode == Mode::Plain {
+                        vec![]
+                    } else {
+                        vec![honest(crypto, sender.enck, sender.lnode, &hdr, &payload).0]
+                    };
+                    g.push_r(
+                        &format!("R-{}", name),
+                        RCase {
+                            world,
+                            sender,
+                            exch,
+                            gctr: None,
+                            pid,
+                            opcode,
+                            rel,
+                            payload,
+                            receivers: table_with(receiver),
+                            groups: vec![],
+                            from: from.clone(),
+                            oracle: (0, None),
+                        },
+                    );
+                }
+            }
+        }
+        // group data and group control messages through the real TX path
+        let k1 = GROUP_KEY_BASE + 1;
+        let groups = vec![GroupS { fab: 1, node: 0, gid: 0x0101, key: k1, sid: group_sid(crypto, k1) }];
+        for (opcode, gctr, exchs, exch) in [
+            (8u8, Some(4242u32), vec![ex(35, 'I', 'o', None, None)], Some(0usize)),
+            (8u8, None, vec![ex(35, 'I', 'o', None, None)], Some(0usize)),
+            (0u8, None, vec![ex(36, 'I', 'o', None, None)], Some(0usize)),
+        ] {
+            let mut sender = sess(Mode::Group(1, 0x0101), AddrS::udp4(200, 5540), NODE_A, Some(0), k1, k1, groups[0].sid, groups[0].sid);
+            sender.exchs = exchs;
+            sender.ctr = Some(3000);
+            let pid = if opcode == 0 { 0u16 } else { 1u16 };
+            let payload = payload_of(&mut g.rng, 20);
+            let world = match real_send(crypto, &sender, exch, gctr, pid, opcode, true, &payload) {
+                Ok((hdr, _, _)) => vec![honest(crypto, k1, NODE_A, &hdr, &payload).0],
+                Err(_) => vec![],
+            };
+            g.push_r(
+                "R-group",
+                RCase {
+                    world,
+                    sender,
+                    exch,
+                    gctr,
+                    pid,
+                    opcode,
+                    rel: true,
+                    payload,
+                    receivers: vec![],
+                    groups: groups.clone(),
+                    from: addr_a(),
+                    oracle: (7, None),
+                },
+            );
+        }
+    }
+
+    let n = g.lines.len() as u64;
+    g.count("case_lines", n);
+    (g.lines, g.stats)
+}
+
+fn main() {
+    rsm_harness::silence_panics();
+    let args: Vec<String> = std::env::args().collect();
+    let crypto = test_only_crypto();
+    match args.get(1).map(|s| s.as_str()) {
+        Some("gen") => {
+            let tier = &args[2];
+            let seed: u64 = args[3].parse().unwrap();
+            let outdir = std::path::PathBuf::from(&args[4]);
+            std::fs::create_dir_all(&outdir).unwrap();
+            let (cases, stats) = generate(&crypto, tier, seed);
+            let mut cf = std::io::BufWriter::new(std::fs::File::create(outdir.join("cases.txt")).unwrap());
+            for c in &cases {
+                writeln!(cf, "{}", c).unwrap();
+            }
+            let mut sj = String::from("{");
+            for (i, (k, v)) in stats.iter().enumerate() {
+                if i > 0 {
+                    sj.push(',');
+                }
+                write!(sj, "\"{}\":{}", k, v).unwrap();
+            }
+            sj.push('}');
+            std::fs::write(outdir.join("stats.json"), sj).unwrap();
+        }
+        Some("run") => {
+            let text = std::fs::read_to_string(&args[2]).unwrap();
+            let stdout = std::io::stdout();
+            let mut lock = stdout.lock();
+            for line in text.lines() {
+                let f: Vec<&str> = line.split(' ').collect();
+                if f.len() < 2 {
+                    continue;
+                }
+                let crypto = test_only_crypto();
+                let l = line.to_string();
+                let r = rsm_harness::catch(std::panic::AssertUnwindSafe(move || run_line(&crypto, &l)));
+                match r {
+                    Ok(Some(s)) => writeln!(lock, "{}", s).unwrap(),
+                    Ok(None) => {}
+                    Err(msg) => writeln!(lock, "{} {} PANIC:{}", f[0], f[1], msg.replace(' ', "_")).unwrap(),
+                }
+            }
+        }
+        _ => {
+            eprintln!("usage: c03 gen <tier> <seed> <outdir> | c03 run <cases>");
+            std::process::exit(2);
+        }
+    }
+}
